@@ -402,7 +402,7 @@ def run_property(prop, tier='quick', tree=None, quiet=False):
             # every repository module the rules consulted is also read against the installed third-party libraries (keywords, attributes, changed semantics)
             from . import apicompat
             for rel in sorted(ctx.tree.consulted):
-                if not rel.endswith('.py'):
+                if not rel.endswith(('.py', '.pyx')):
                     continue
                 try:
                     issues, stats = apicompat.scan(ctx.mod(rel))
